@@ -255,6 +255,15 @@ func c12RunOnce(cfg c12Cfg, src string) c12Res {
 				}
 			}
 		}
+		if st == "ok" {
+			// invariants ABOUT the call-stack limit (entries "INVS", name, bool): meaningful for every size
+			for _, e := range tr {
+				if strings.HasPrefix(e, "\"INVS,") && !strings.HasSuffix(e, ",T") {
+					r.Status = "invariant-violated:" + strings.ReplaceAll(e, "\"", "")
+					break
+				}
+			}
+		}
 		pr, st2 := s.runChunk(c12Probe)
 		r.Probe = c12Join(pr)
 		if st == "ok" && st2 != "ok" {
@@ -637,8 +646,42 @@ emit("after", pcall(f, 3))
 return "end"`, pad, op[0], op[1], op[2], op[1])
 }
 
+// codepth: the call-depth limit is ONE number for the whole state: the deepest recursion reachable plus the frames
+// already in use is the same in the main thread, in a coroutine, in a nested coroutine and in a wrapped one (each
+// thread has its own call stack of the configured kind and size).  Measured inside the state; run under call-stack
+// sizes that are not multiples of the segment size, fixed and auto-growing (see genC12ProgCase).
+func c12CoDepthSrc(n, m int) string {
+	return `local function levels() local k = 1 while debug.getinfo(k, "l") do k = k + 1 end return k - 2 end
+local function measure()
+  local used = levels()
+  local d = 0
+  local function rec(k) d = k return 1 + rec(k + 1) end
+  local ok, msg = pcall(rec, 1)
+  local so = (not ok) and type(msg) == "string" and string.find(msg, "stack overflow", 1, true) ~= nil
+  return used, d, so
+end
+local um, dm, som = measure()
+local function inco() local u, d, so = measure() return u, d, so end
+local uc, dc, soc = coroutine.wrap(inco)()
+local co = coroutine.create(function() local u, d, so = coroutine.wrap(inco)() coroutine.yield(u, d, so) local u2, d2, so2 = measure() return u2, d2, so2 end)
+local _, un, dn, son = coroutine.resume(co)
+local _, ur, dr, sor = coroutine.resume(co)
+local up, dp, sop
+pcall(function() up, dp, sop = coroutine.wrap(function() local a, b, c = select(2, pcall(inco)) return a, b, c end)() end)
+local function same(u, d, so) return (not som) or (not so) or (um + dm == u + d) end
+emit("INVS", "coroutine-depth-limit", same(uc, dc, soc))
+emit("INVS", "nested-coroutine-depth-limit", same(un, dn, son))
+emit("INVS", "resumed-again-depth-limit", same(ur, dr, sor))
+emit("INVS", "coroutine-under-pcall-depth-limit", same(up, dp, sop))
+if not (same(uc, dc, soc) and same(un, dn, son) and same(ur, dr, sor) and same(up, dp, sop)) then
+  emit("INVS", "detail main " .. um .. "+" .. dm .. " co " .. uc .. "+" .. dc .. " nested " .. un .. "+" .. dn .. " resumed " .. ur .. "+" .. dr .. " pcall " .. tostring(up) .. "+" .. tostring(dp), false)
+end
+emit("after", pcall(function() return 1 end))
+return "end"`
+}
+
 func init() {
-	c12Families = append(c12Families, c12Family{"twinsweep", c12TwinSrc, 30000})
+	c12Families = append(c12Families, c12Family{"twinsweep", c12TwinSrc, 30000}, c12Family{"codepth", c12CoDepthSrc, 30000})
 }
 
 // ---------- configuration grid ----------
@@ -725,6 +768,8 @@ func genC12ProgCase(r *Rng, ncfg int) []Op {
 			}
 		}
 	} else if r.Chance(12) { // exact-fit sweeps too
+		fam = len(c12Families) - 2
+	} else if r.Chance(8) { // the depth limit inside coroutines
 		fam = len(c12Families) - 1
 	}
 	f := c12Families[fam]
@@ -778,6 +823,14 @@ func genC12ProgCase(r *Rng, ncfg int) []Op {
 				c = c12Cfg{CS: 256, Min: r.Bool(), RS: 128, RMax: base + i, Step: step, Ctx: ctx}
 			}
 			cfgs = append(cfgs, c)
+		}
+	}
+	if f.Name == "codepth" {
+		cfgs = cfgs[:1]
+		for _, cs := range []int{9, 10, 11, 12, 13, 15, 16, 17, 20, 23, 24, 30, 100, 255, 257} {
+			if r.Chance(70) {
+				cfgs = append(cfgs, c12Cfg{CS: cs, Min: r.Chance(35), RS: 5120, RMax: 0, Step: 32, Ctx: r.Chance(25)})
+			}
 		}
 	}
 	// size: near a limit of one of the configurations (registers per frame differ by family, so sweep a window)
